@@ -281,9 +281,35 @@ def _forwarding(ctx, rep, cm):
                          "the single-result call has no option '{}'".format(name))
 
 
+def _tables_as_names(f):
+    """*f* with every table that is a field of a local object (state.seen[k] = v, self.best[k] = v)
+    renamed to a plain local name: the clauses below are about the table, not about where it lives"""
+    from ..inline import clone
+    tabs = set()
+    for a in ast.walk(f):
+        if isinstance(a, ast.Assign) and len(a.targets) == 1 and isinstance(a.targets[0], ast.Subscript):
+            b = a.targets[0].value
+            if isinstance(b, ast.Attribute) and isinstance(b.value, ast.Name):
+                tabs.add(norm(b))
+    if not tabs:
+        return f
+
+    class _R(ast.NodeTransformer):
+        def visit_Attribute(self, n):
+            if isinstance(n.value, ast.Name) and norm(n) in tabs:
+                return ast.copy_location(ast.Name(id=norm(n).replace(".", "__"), ctx=n.ctx), n)
+            return self.generic_visit(n)
+    g = _R().visit(clone(f))
+    ast.fix_missing_locations(g)
+    for node in ast.walk(g):
+        for ch in ast.iter_child_nodes(node):
+            ch._parent = node
+    return g
+
+
 def _strict(ctx, rep, cm):
     from ..e1_model import PureEval
-    f = cm.func("_ctparse")
+    f = _tables_as_names(cm.func("_ctparse"))
     n = 0
     for node in ast.walk(f):
         if not isinstance(node, ast.If):
@@ -436,6 +462,11 @@ def _strict(ctx, rep, cm):
     for ln, st in enumerate(order):
         if isinstance(st, ast.Assign) and isinstance(st.value, ast.Subscript) and isinstance(st.value.slice, ast.Slice) \
                 and "max_stack_depth" in norm(st.value.slice) and norm(st.targets[0]) == norm(st.value.value):
+            events.append((ln, "cut", st))
+        elif isinstance(st, ast.Delete) and len(st.targets) == 1 and isinstance(st.targets[0], ast.Subscript) \
+                and isinstance(st.targets[0].slice, ast.Slice) and st.targets[0].slice.lower is None \
+                and st.targets[0].slice.step is None and norm(st.targets[0].slice.upper) == "-max_stack_depth":
+            # del x[:-n] keeps the last n elements, like x = x[-n:]
             events.append((ln, "cut", st))
         elif isinstance(st, ast.Expr) and isinstance(st.value, ast.Call) and isinstance(st.value.func, ast.Attribute) \
                 and st.value.func.attr == "sort":
